@@ -95,6 +95,11 @@ def mapSrc {P S B : Type} (f : LState P S B → S → Option (LState P S B × Ex
     | none => none
     | some (st', mods, vars, errs) => some (st', mapResult mods vars errs body)
 
+/-- `Iterator::position`: index of the first element satisfying `p` -/
+def position {α : Type} (p : α → Bool) : List α → Option Nat
+  | [] => none
+  | a :: r => if p a then some 0 else (position p r).map (· + 1)
+
 /-- `Loader::find`; `none` = fuel exhausted (proved impossible for finite file sets) -/
 def find {P S B : Type} [BEq P] (read : Reader P S B) :
     Nat → P → LState P S B → S → Option (LState P S B × Except String Nat)
@@ -104,7 +109,7 @@ def find {P S B : Type} [BEq P] (read : Reader P S B) :
     match read parent s with
     | .error e => some (st, .error e)
     | .ok (path, src) =>
-      match st.mods.findIdx? (fun m => path == m.1) with
+      match position (fun m => path == m.1) st.mods with
       | some id => some (st, .ok id)
       | none =>
         if st.opened.contains path then some (st, .error circularMsg)
